@@ -3,6 +3,7 @@ import GrinVerif.Model.Chain
 import GrinVerif.Model.ChainImpl
 import GrinVerif.Model.ChainFull
 import GrinVerif.Model.ChainInputs
+import GrinVerif.Model.ChainNrdDup
 /-! Driver glue for the `chain` domain: block tree definitions shared by all subject chains,
 one model `Node` per subject. -/
 namespace GV.Drv.ChainD
@@ -145,7 +146,7 @@ def handle (st : St) (args : List String) (impl : String) : St × Verdict :=
     | _, _, _ => (st, .unknown)
   | "blk" :: b :: rest =>
     match parseBlk b rest, parseClaims rest with
-    | some blk, some inf => ({ st with blks := st.blks ++ [blk.withInputFeatures st.outs inf] }, .ok)
+    | some blk, some inf => ({ st with blks := st.blks ++ [(blk.withInputFeatures st.outs inf).withNrdDupCheck] }, .ok)
     | _, _ => (st, .unknown)
   | ["new", s] =>
     let S0 := match st.blks.find? (·.id == 0) with
